@@ -55,6 +55,12 @@ def case_spec(prop, seed, i):
         profiles = [p for p in PROFILES if p[0] in only.split(',')]
         tot = sum(p[1] for p in profiles)
         profiles = [(p[0], p[1] / tot, p[2]) for p in profiles]
+    if not only and prop in ('C14', 'C01', 'C03') and r > .93:
+        # structured constraint placements (permanent / hierarchical / exclusive, ids in and against hierarchy order)
+        from . import c13
+        sp = c13.make_spec(rnd.choice(c13.TYPES), rnd.choice((2, 3)), rnd.choice((2, 3)),
+                           rnd.choice(('perm', 'hier', 'hier_all', 'excl')), rnd.random() < .5, False)
+        return 'con_struct', sp
     for name, w, kw in profiles:
         acc += w
         if r < acc:
@@ -137,9 +143,11 @@ def check_case(prop, sp, col, shard='corpus', cap=400):
     if prop == 'C14' and reach.get('FAST') is not None and reach.get('COMPLETE') is not None:
         f, c = reach['FAST'], reach['COMPLETE']
         if f['exhaustive'] and c['exhaustive'] and f['keys'] != c['keys']:
-            Emit(prop, col, sp, flags, 'FAST')('fast_differs_from_complete',
-                                                {'only_fast': len(f['keys'] - c['keys']),
-                                                 'only_complete': len(c['keys'] - f['keys'])})
+            only_c = c['keys'] - f['keys']
+            Emit(prop, col, sp, flags, 'FAST')(
+                'fast_differs_from_complete', {'only_fast': len(f['keys'] - c['keys']), 'only_complete': len(only_c)},
+                where={'linked_partial_only': not (f['keys'] - c['keys']) and common.linked_partial_only(
+                    sp, [x['assign'] for k in only_c for x in rk_dv.get(k, [{'assign': {}}])])})
     nontrivial = len(rk_dv) >= 2
     if nontrivial:
         col.nontrivial.add(S.digest(sp))
@@ -328,7 +336,9 @@ def run_encoder(prop, case, enc, emit, col, rk, rk_dv, rnd, cap):
         if missing:
             a = rk_dv[sorted(missing)[0]][0]
             emit('fast_missing_architectures', {'n_missing': len(missing), 'n_ref': len(rk_dv),
-                                                'example_assign': a['assign'], 'example_conn': a['conn']})
+                                                'example_assign': a['assign'], 'example_conn': a['conn']},
+                 where={'linked_partial_only': common.linked_partial_only(
+                     sp, [x['assign'] for k in missing for x in rk_dv[k]])})
         # a vector that is valid on a fresh processor is returned unchanged by the used one
         b2 = case.rebuild()
         try:
